@@ -19,3 +19,23 @@ Definition fuel_for (T : table) (w : list nat) : nat :=
 
 Definition parse_auto (g : grammar) (T : table) (partial : bool) (w : list nat) : outcome :=
   parse g T partial (fuel_for T w) w.
+
+(* the two custom lexers of the harness (harness/src/custom.rs) at token level *)
+Definition lex_all (c : conf) : tok :=
+  match c_inp c with
+  | [] => Tok STOP false
+  | a :: _ => Tok a true
+  end.
+
+Definition lex_foreign (g : grammar) (T : table) (c : conf) : tok :=
+  match c_stk c with
+  | [] => NoTok
+  | s :: _ =>
+      match find (fun t => negb (memb t (expected T s))) (seq 0 (g_nterm g)) with
+      | Some t => Tok t false
+      | None => NoTok
+      end
+  end.
+
+Definition run_lex_auto (g : grammar) (T : table) (lex : conf -> tok) (w : list nat) : outcome :=
+  run_lex g T lex (fuel_for T w) (init 0 w).
